@@ -3,7 +3,7 @@ from . import wl_roundtrip
 
 PROPERTY = "C12"
 LEVEL = "exploration"
-SCENARIOS = {"faults": 6, "nofault": 3, "nofault-nooversize": 1}
+SCENARIOS = {"faults": 6, "nofault": 3, "nofault-nooversize": 1, "fast-master": 2}
 TIERS = {"quick": {"runs": 6000, "chunk": 40}, "thorough": {"runs": 50000000, "wall_s": 600, "chunk": 200, "recheck": 16}}
 RULE = ("one run = 1-8 concurrent client tasks issuing 1-30 EtherCat.roundtrip calls "
         "(sizes 0..1472 and beyond, bursts in one loop iteration, short wait_for "
@@ -33,6 +33,7 @@ MINE = {"never-fit-stalls-master", "master-stalled", "library-task-died", "never
 
 def run(tape, scenario):
     res = wl_roundtrip.run_workload(
-        tape, faults=scenario == "faults", fmt_args=False,
-        oversize=scenario != "nofault-nooversize", cancels=True)
+        tape, faults=scenario in ("faults", "fast-master"), fmt_args=False,
+        oversize=scenario != "nofault-nooversize", cancels=True,
+        fast_master=scenario == "fast-master")
     return wl_roundtrip.attribute(res, MINE)
